@@ -359,7 +359,7 @@ def evaluate(results, tag, checker='chk08'):
     for i, (case, res) in enumerate(results):
         if res['term'] is not None:
             terms.append(res['term']); idx.append(i)
-    bad, errors = common.run_shards(HEADER, terms, checker, tag, shard=min(400, max(1, len(terms) // 16 + 1)))
+    bad, errors = lb.run_shards_retry(HEADER, terms, checker, tag, min(400, max(1, len(terms) // 16 + 1)))
     return {idx[k]: c for k, c in bad.items()}, errors
 
 
